@@ -19,6 +19,8 @@ func checkC20(c *Ctx) {
 	c.Rule("C20-R1", "ViewPort: every store of viewx/viewy (and of limx/limy/width/height in the size setters) is followed by the matching Validate call on every path to the return")
 	c.Rule("C20-R2", "ViewPort.SetContent: parent call only inside the four window tests, coordinates x-viewx+physx / y-viewy+physy; Fill covers [0,width)x[0,height) offset by the origin")
 	c.Rule("C20-R3", "BoxLayout: a method storing cells/orient/view sets changed or calls layout() before returning; Draw lays out under changed; Resize lays out")
+	c.Rule("C20-R8", "a nested BoxLayout gets its preferred extent: Size() is worked out from the children when asked (the outer layout pass asks before the inner box has been laid out), not remembered from the last layout pass")
+	c.Expect("C20-R8", 1)
 	c.Rule("C20-R7", "the surplus is shared in proportion to the fill factors: frac = extra*fill/total for cells with fill > 0, pad = int(frac), the lost fraction is kept, the remainder shrinks by pad; each remainder cell goes to one cell (pad+1) whose fraction is then zeroed")
 	c.Expect("C20-R7", 4)
 	c.Rule("C20-R6", "every child is placed on every layout pass: in hLayout/vLayout no iteration of the loop over the cells avoids the child's ViewPort.Resize and the widget's Resize (a skipped child keeps a stale rectangle)")
@@ -305,6 +307,27 @@ func checkC20(c *Ctx) {
 			}
 		}
 		c.Check(ok, "C20-R3", "layout:clears-changed", p.pos(l.Pos()), "layout() clears the flag after laying out")
+	}
+	// ---- R8: a box that is itself a child is asked for its preferred size before it has been laid out
+	// (the outer pass comes first; the inner box may not even have a view yet).  Size() therefore works
+	// the size out from the children as they are now: it asks the children (Widget.Size) and reads none
+	// of the fields that only a layout pass writes.
+	if sz := bl["Size"]; sz != nil {
+		asks := 0
+		eachInstr(sz, func(in ssa.Instruction) {
+			if cc := callCommon(in); cc != nil && cc.IsInvoke() && cc.Method.Name() == "Size" && strings.HasSuffix(typeName(cc.Value.Type()), "Widget") {
+				asks++
+			}
+		})
+		stale := ""
+		for _, f := range []string{"width", "height"} {
+			if len(loadsOf(sz, blOwner, f)) > 0 {
+				stale += "returns the remembered " + f + "; "
+			}
+		}
+		c.Check(asks >= 1 && stale == "", "C20-R8", "BoxLayout.Size:computed-from-children", p.pos(sz.Pos()), fmt.Sprintf("asks the children (%d call site(s)) and reads no field written only by a layout pass %s", asks, stale))
+	} else {
+		c.Undecided("C20-R8", "BoxLayout.Size", "-", "not found")
 	}
 	// ---- R7: the shape of the proportional share.  Every cell with a positive fill factor gets
 	// int(extra * fill / total) cells of the surplus, keeps the fraction it lost, and the remainder is
